@@ -391,6 +391,110 @@ def okTail : Monitor := fun cfg e t _ =>
 
 end C02
 
+/-! ### C13 — the abort poll that guards a backoff sleep is made after the retry was decided; proofs in `Props/C13Poll.lean` -/
+
+namespace C13
+
+/-- has `abort_if` been polled since the strategy last computed a delay? -/
+structure PSt where
+  fresh : Bool := false
+  bad : Bool := false
+deriving DecidableEq, Repr
+
+def pstep (cfg : Cfg) (s : PSt) (x : Req × Ans) : PSt :=
+  match x.1 with
+  | .strategy .. => { s with fresh := false }
+  | .abortIf => { s with fresh := true }
+  | .sleeper .. => { s with bad := s.bad || (cfg.abortIf && !s.fresh) }
+  | _ => s
+
+/-- every backoff sleep is preceded by an abort poll made AFTER the delay of that retry was computed -/
+def pollFresh : Monitor := fun cfg e t _ => !hasLoop cfg e || !(t.foldl (pstep cfg) {}).bad
+
+/-- the same fold with the set of requests that reset `fresh` as a parameter (the `.sleeper` is judged
+    first, then resets like any other request) -/
+def pstepR (rst : Req → Bool) (cfg : Cfg) (s : PSt) (x : Req × Ans) : PSt :=
+  match x.1 with
+  | .abortIf => { s with fresh := true }
+  | .sleeper l d =>
+    { fresh := s.fresh && !rst (.sleeper l d), bad := s.bad || (cfg.abortIf && !s.fresh) }
+  | r => if rst r then { s with fresh := false } else s
+
+def pollFreshR (rst : Req → Bool) : Monitor :=
+  fun cfg e t _ => !hasLoop cfg e || !(t.foldl (pstepR rst cfg) {}).bad
+
+/-- `pollFresh`'s reset set -/
+def stratReq : Req → Bool
+  | .strategy .. => true
+  | _ => false
+
+/-- what `_handle_failure` does when it grants a retry: the strategy, the budget, the `retry` event -/
+def grantReq : Req → Bool
+  | .strategy .. | .budgetConsume | .metric .. | .log .. => true
+  | _ => false
+
+/-- everything but the two callbacks that lie between the abort poll and the sleep it guards -/
+def tightReq : Req → Bool
+  | .sleepHandler .. | .beforeSleep .. => false
+  | _ => true
+
+/-- every backoff sleep is preceded by an abort poll made after the strategy computed the delay, the
+    budget was consulted and the `retry` event was reported -/
+def pollFreshLate : Monitor := pollFreshR grantReq
+
+/-- between a backoff sleep and the last abort poll before it, nothing happens but the sleep handler
+    and the before-sleep hook -/
+def pollFreshTight : Monitor := pollFreshR tightReq
+
+theorem pstep_eq (cfg : Cfg) (s : PSt) (x : Req × Ans) : pstep cfg s x = pstepR stratReq cfg s x := by
+  obtain ⟨r, a⟩ := x
+  cases r <;> simp [pstep, pstepR, stratReq]
+
+theorem pollFresh_eq : pollFresh = pollFreshR stratReq := by
+  funext cfg e t r
+  have : pstep cfg = pstepR stratReq cfg := by funext s x; exact pstep_eq cfg s x
+  simp [pollFresh, pollFreshR, this]
+
+/-- `s₂` is at least as suspicious as `s₁` -/
+def PSt.le (s₁ s₂ : PSt) : Prop := (s₂.fresh = true → s₁.fresh = true) ∧ (s₁.bad = true → s₂.bad = true)
+
+theorem pstepR_mono {rst₁ rst₂ : Req → Bool} (h : ∀ r, rst₁ r = true → rst₂ r = true) (cfg : Cfg)
+    (s₁ s₂ : PSt) (x : Req × Ans) (hs : s₁.le s₂) : (pstepR rst₁ cfg s₁ x).le (pstepR rst₂ cfg s₂ x) := by
+  obtain ⟨r, a⟩ := x
+  obtain ⟨h1, h2⟩ := hs
+  have hr := h r
+  generalize e₁ : rst₁ r = b₁ at hr
+  generalize e₂ : rst₂ r = b₂ at hr
+  cases r <;> simp only [pstepR, PSt.le, e₁, e₂] <;> cases b₁ <;> cases b₂ <;> simp_all <;>
+    (cases hf₁ : s₁.fresh <;> cases hf₂ : s₂.fresh <;> simp_all <;> grind)
+
+theorem foldl_mono {rst₁ rst₂ : Req → Bool} (h : ∀ r, rst₁ r = true → rst₂ r = true) (cfg : Cfg) :
+    ∀ (t : Trace) (s₁ s₂ : PSt), s₁.le s₂ → (t.foldl (pstepR rst₁ cfg) s₁).le (t.foldl (pstepR rst₂ cfg) s₂) := by
+  intro t
+  induction t with
+  | nil => intro s₁ s₂ hs; exact hs
+  | cons x t ih => intro s₁ s₂ hs; exact ih _ _ (pstepR_mono h cfg s₁ s₂ x hs)
+
+/-- resetting `fresh` less often makes the monitor weaker -/
+theorem pollFreshR_mono {rst₁ rst₂ : Req → Bool} (h : ∀ r, rst₁ r = true → rst₂ r = true) (cfg : Cfg)
+    (e : Entry) (t : Trace) (r : Res) (h2 : pollFreshR rst₂ cfg e t r = true) : pollFreshR rst₁ cfg e t r = true := by
+  have := (foldl_mono h cfg t {} {} ⟨fun a => a, fun a => a⟩).2
+  simp only [pollFreshR, Bool.or_eq_true, Bool.not_eq_true'] at h2 ⊢
+  rcases h2 with h2 | h2
+  · exact Or.inl h2
+  · right
+    cases hb : (List.foldl (pstepR rst₁ cfg) {} t).bad
+    · rfl
+    · rw [this hb] at h2; cases h2
+
+theorem stratReq_grant : ∀ r, stratReq r = true → grantReq r = true := by
+  intro r; cases r <;> simp [stratReq, grantReq]
+
+theorem grantReq_tight : ∀ r, grantReq r = true → tightReq r = true := by
+  intro r; cases r <;> simp [grantReq, tightReq]
+
+end C13
+
 end Mon
 
 namespace MonitorsNR
@@ -402,7 +506,10 @@ def all : List (String × String × Monitor) :=
   [ ("C04", "no_retry_call", C04NR.ok), ("C11", "no_retry_execute", C11NR.ok),
     ("C11", "attempts_eq_invocations", C11H.ok), ("C04", "exhausted_stop_reason", C04S.ok),
     ("C09", "once_exact", C09.onceExact), ("C16", "cut_by_propagating_error", C16.cutOk),
-    ("C02", "deadline_tail_quiet", C02.okTail) ]
+    ("C02", "deadline_tail_quiet", C02.okTail),
+    -- C05 "… and next_sleep_s report": the conjunct of C16 that a deferred run REPORTS the delay (Props/C05Defer.lean)
+    ("C05", "deferred_delay_reported", C16.deferOk),
+    ("C13", "poll_after_delay_computed", C13.pollFresh) ]
 
 end MonitorsNR
 end Redress
